@@ -60,15 +60,15 @@ fn write_subword_fn<W: Write>(
 
             for ((literal_id = 0; literal_id < nliterals; literal_id++)); do
                 local literal=${{literals[$literal_id]}}
-                if [[ $subword == $literal && -v "state_transitions[$literal_id]" ]]; then
+                if [[ $subword == "$literal" && -v "state_transitions[$literal_id]" ]]; then
                     subword_state=${{state_transitions[$literal_id]}}
                     char_index=$((char_index + ${{#literal}}))
                     continue 2
                 fi
-                if [[ $literal == $subword* ]]; then
+                if [[ $literal == "$subword"* ]]; then
                     break 2
                 fi
-                if [[ $subword == $literal* && -v "state_transitions[$literal_id]" ]]; then
+                if [[ $subword == "$literal"* && -v "state_transitions[$literal_id]" ]]; then
                     subword_state=${{state_transitions[$literal_id]}}
                     char_index=$((char_index + ${{#literal}}))
                     continue 2
@@ -98,18 +98,18 @@ fn write_subword_fn<W: Write>(
                     done
 
                     for candidate in "${{decreasing_length[@]}}"; do
-                        if [[ $candidate == $subword ]]; then
+                        if [[ $candidate == "$subword" ]]; then
                             match_len=${{#candidate}}
                             char_index=$((char_index + match_len))
                             subword_state=${{state_commands[$cmd_id]}}
                             continue 3
                         fi
 
-                        if [[ $candidate == $subword* ]]; then
+                        if [[ $candidate == "$subword"* ]]; then
                             break 3
                         fi
 
-                        if [[ $subword == $candidate* ]]; then
+                        if [[ $subword == "$candidate"* ]]; then
                             match_len=${{#candidate}}
                             char_index=$((char_index + match_len))
                             subword_state=${{state_commands[$cmd_id]}}
@@ -586,7 +586,7 @@ fi
                     done
 
                     for candidate in "${{decreasing_length[@]}}"; do
-                        if [[ $candidate == $word ]]; then
+                        if [[ $candidate == "$word" ]]; then
                             state=${{state_commands[$cmd_id]}}
                             word_index=$((word_index + 1))
                             continue 3
@@ -744,16 +744,16 @@ fi
             local shortest_suffix="$prefix"
             for ((i=0; i < ${{#COMP_WORDBREAKS}}; i++)); do
                 local char="${{COMP_WORDBREAKS:$i:1}}"
-                local candidate=${{prefix##*$char}}
+                local candidate=${{prefix##*"$char"}}
                 if [[ ${{#candidate}} -lt ${{#shortest_suffix}} ]]; then
                     shortest_suffix=$candidate
                 fi
             done
             local superfluous_prefix=""
             if [[ "$shortest_suffix" != "$prefix" ]]; then
-                local superfluous_prefix=${{prefix%$shortest_suffix}}
+                local superfluous_prefix=${{prefix%"$shortest_suffix"}}
             fi
-            COMPREPLY=("${{matches[@]#$superfluous_prefix}}")
+            COMPREPLY=("${{matches[@]#"$superfluous_prefix"}}")
             break
         fi
     }}
